@@ -212,6 +212,34 @@ def rule_orphan_moved(ctx, crate, rule="R-ORPHAN-MOVED"):
                         "orphan lines are copied out of the queue (they stay queued and are painted again on every draw)", cfg)
     ctx.floor(rule, n_move, 1, cfg, "moving consumers of MultiState::orphan_lines")
     ctx.floor(rule, n_uses, 3, cfg, "uses of MultiState::orphan_lines")
+    # text a member bar prints leaves the member's own draw state for the shared queue when the bar's wrapper is dropped: every
+    # wrapper handed out over a *member's* draw state is the collecting kind (`for_multi` / `orphan_lines: Some(..)`), whatever
+    # state the MultiProgress is in. A plain wrapper for, say, a hidden MultiProgress leaves the printed text inside the member's
+    # lines, and it is painted as soon as the MultiProgress gets a visible target and another bar draws (seed C06m)
+    n_w = 0
+    wrapper_cons = K.constructions(crate, "draw_target::DrawStateWrapper")
+    for b in K.lib_bodies(crate):
+        for c in b.calls(r"draw_target::DrawStateWrapper::<'\w+>::(for_term|for_multi)"):
+            sl = b.slice_args(c, [0])
+            if not sl.has_field("draw_state", "multi::MultiStateMember"):
+                continue
+            n_w += 1
+            ctx.check(K.meth(c.path) == "for_multi", rule, "member-wrapper-collects:%s" % K.meth(K.owner_fn(crate, b)), b.name, c.loc(),
+                      "the wrapper over a member's draw state collects printed text into the shared queue",
+                      "a member's draw state is wrapped without the orphan-line collector on some path: text the bar prints then stays in the member's own lines "
+                      "(not in the queue that a hidden target drops) and is painted later by another bar's draw", cfg)
+        for (cb, i, j, st) in wrapper_cons:
+            if cb is not b or b.name.startswith("draw_target::DrawStateWrapper"):
+                continue
+            rv = st["rv"]
+            if "state" in rv.get("fields", []) and b.slice(rv["ops"][rv["fields"].index("state")], at=i).has_field("draw_state", "multi::MultiStateMember"):
+                n_w += 1
+                osl = b.slice(rv["ops"][rv["fields"].index("orphan_lines")], at=i, through_calls=False) if "orphan_lines" in rv["fields"] else None
+                ok = osl is not None and ("agg", "std::option::Option", "Some") in osl.atoms and ("agg", "std::option::Option", "None") not in osl.atoms
+                ctx.check(ok, rule, "member-wrapper-collects:%s" % K.meth(K.owner_fn(crate, b)), b.name, "%s:%d" % (b.file, st.get("line", 0)),
+                          "the wrapper over a member's draw state collects printed text into the shared queue",
+                          "a member's draw state is wrapped without the orphan-line collector on some path", cfg)
+    ctx.floor(rule, n_w, 1, cfg, "wrappers handed out over a member's draw state")
     # the moving consumer feeds the frame on the draw path
     d = crate.body("multi::MultiState::draw")
     if d:
